@@ -572,6 +572,7 @@ def check_service(run: ServiceRun) -> tuple[list[dict[str, Any]], dict[str, int]
         inc("nested_owner")
     else:
         inc("root_owner")
+    inc(f"factory_started_via_{prog.get('factory_via', 'method')}")
     return V, c
 
 
@@ -642,7 +643,7 @@ def gen_factory_program(rng: Any) -> dict[str, Any]:
     return {"backend": rng.choice(["asyncio", "trio"]), "sched_seed": rng.randrange(1 << 30), "shuffle": rng.random() < 0.5, "nested": rng.random() < 0.5,
             "handler": handler, "cmds": cmds, "spawn_after_close": rng.choice([None, "start_task_soon", "start_task"]),
             # the factory is started in a context that holds no resource at all
-            "owner_empty": rng.random() < 0.3}
+            "owner_empty": rng.random() < 0.3, "factory_via": rng.choice(["method", "method", "shortcut", "component"])}
 
 
 class FactoryRun:
@@ -798,7 +799,23 @@ class FactoryRun:
             self.owner = ctx
             if not prog.get("owner_empty"):
                 ctx.add_resource(ST0(), "before")
-            self.factory = await ctx.start_background_task_factory(exception_handler=handler)
+            via = prog.get("factory_via", "method")
+            if via == "shortcut":
+                from asphalt.core import start_background_task_factory
+
+                self.factory = await start_background_task_factory(exception_handler=handler)
+            elif via == "component":
+                # started from a component's start(): goes through the component context's delegating wrapper and belongs
+                # to the context start_component() was called in
+                from asphalt.core import Component, start_background_task_factory, start_component
+
+                class FactoryHost(Component):
+                    async def start(self_inner) -> None:  # noqa: N805
+                        run.factory = await start_background_task_factory(exception_handler=handler)
+
+                await start_component(FactoryHost, timeout=None)
+            else:
+                self.factory = await ctx.start_background_task_factory(exception_handler=handler)
             ctx.add_resource(ST0(), "after")
             self.check_handles("factory started")
             for cmd in prog["cmds"]:
@@ -1096,4 +1113,5 @@ def check_factory(run: FactoryRun) -> tuple[list[dict[str, Any]], dict[str, int]
         inc("nested_owner")
     else:
         inc("root_owner")
+    inc(f"factory_started_via_{prog.get('factory_via', 'method')}")
     return V, c
